@@ -332,10 +332,14 @@ class HistoryRunner:
 		if rec['status'] == 'died':
 			from tranpsim.core import HarnessError
 			raise HarnessError(f'simulated build loop died without a record: {rec}')
-		loop_result = (rec['status'], self.proj.outputs() if rec['status'] == 'ok' else {}, rec.get('error'))
-		self.bump('run_outcomes', 'loop:' + rec['status'])
+		if rec['status'] == 'ok':
+			last = (rec['result']['runs'] or [{'status': 'ok'}])[-1]
+			loop_result = (last['status'], self.proj.outputs() if last['status'] == 'ok' else {}, last.get('error'))
+		else:
+			loop_result = (rec['status'], {}, rec.get('error'))
+		self.bump('run_outcomes', 'loop:' + loop_result[0])
 		self.bump('faults_fired', 'schedule: %d runs in one process' % sum(1 for st in plan if st[0] == 'run'))
-		self.log.append(['loop', rec['status'], (rec.get('error') or {}).get('cls'), digest(loop_result[1])])
+		self.log.append(['loop', loop_result[0], (loop_result[2] or {}).get('cls'), digest(loop_result[1])])
 		self.proj.sc.restore(snap)
 		self.proj.state = dict(state0)
 		for st in steps:
